@@ -91,6 +91,7 @@ pub fn run(cfg: &RunCfg) -> Ctx {
         all.counters.remove(k);
     }
     all.add("srv.config_pairs_seen", pairs.len() as u64);
+    all.floor("cli.trailers_only_refused", 3);
     for k in ["srv.compressed_response", "srv.identity_response", "srv.request_refused_unimplemented", "srv.flag1_without_encoding", "srv.offer_not_enabled", "cli.request_compressed", "cli.response_refused", "cli.flag1_without_encoding", "cli.response_decompressed"] {
         all.floor(k, 5);
     }
@@ -335,6 +336,8 @@ struct CapSvc {
     seen: Arc<Mutex<Vec<(http::request::Parts, Vec<u8>)>>>,
     resp_headers: HeaderMap,
     resp_body: Vec<u8>,
+    /// Some(code): a Trailers-Only response (grpc-status in the headers, no body)
+    trailers_only: Option<i32>,
 }
 
 impl Service<http::Request<tonic::body::Body>> for CapSvc {
@@ -348,6 +351,7 @@ impl Service<http::Request<tonic::body::Body>> for CapSvc {
         let seen = self.seen.clone();
         let rh = self.resp_headers.clone();
         let rb = self.resp_body.clone();
+        let tonly = self.trailers_only;
         Box::pin(async move {
             let (parts, body) = req.into_parts();
             // drain the request body inside the service future
@@ -367,9 +371,13 @@ impl Service<http::Request<tonic::body::Body>> for CapSvc {
             seen.lock().unwrap().push((parts, data));
             let mut t = HeaderMap::new();
             t.insert("grpc-status", HeaderValue::from_static("0"));
-            let (sb, _) = crate::script::ScriptBody::new(vec![crate::script::BStep::Data(rb), crate::script::BStep::Trailers(t)]);
+            let steps = if tonly.is_some() { vec![] } else { vec![crate::script::BStep::Data(rb), crate::script::BStep::Trailers(t)] };
+            let (sb, _) = crate::script::ScriptBody::new(steps);
             let mut resp = http::Response::new(sb);
             *resp.headers_mut() = rh;
+            if let Some(c) = tonly {
+                resp.headers_mut().insert("grpc-status", HeaderValue::from_str(&c.to_string()).unwrap());
+            }
             resp.headers_mut().insert("content-type", HeaderValue::from_static("application/grpc"));
             Ok(resp)
         })
@@ -393,7 +401,7 @@ fn client_case(rng: &mut Rng, ctx: &mut Ctx, _idx: u64) {
         rh.insert("grpc-encoding", HeaderValue::from_str(v).unwrap());
     }
     let shape = *rng.pick(&[Shape::Unary, Shape::ServerStream, Shape::ClientStream, Shape::Bidi]);
-    let case_json = json!({"shape": format!("{:?}", shape), "send_compressed": send.map(|e| e.name()), "accept_compressed": names(&acc), "response_grpc-encoding": resp_enc_hdr, "response_flag": flag1 as u8});
+    let case_json = json!({"shape": format!("{:?}", shape), "send_compressed": send.map(|e| e.name()), "accept_compressed": names(&acc), "response_grpc-encoding": resp_enc_hdr, "response_flag": flag1 as u8, "trailers_only_status": "see class"});
     let class = match (resp_enc_hdr, resp_enc) {
         (None, _) | (Some("identity"), _) => "resp-identity",
         (Some(_), Some(e)) if acc.contains(&e) => "resp-enabled",
@@ -401,7 +409,10 @@ fn client_case(rng: &mut Rng, ctx: &mut Ctx, _idx: u64) {
     };
     ctx.begin(class, case_json.clone());
     let seen = Arc::new(Mutex::new(Vec::new()));
-    let cap = CapSvc { seen: seen.clone(), resp_headers: rh, resp_body };
+    let _ = &case_json;
+    // sometimes the scripted response is Trailers-Only (still announces a grpc-encoding)
+    let trailers_only: Option<i32> = if rng.chance(1, 5) { Some(*rng.pick(&[0i32, 0, 3, 14])) } else { None };
+    let cap = CapSvc { seen: seen.clone(), resp_headers: rh, resp_body, trailers_only };
     let mut client = VerifClient::new(cap);
     if let Some(e) = send {
         client = client.send_compressed(e.tonic().unwrap());
@@ -409,6 +420,8 @@ fn client_case(rng: &mut Rng, ctx: &mut Ctx, _idx: u64) {
     for e in &acc {
         client = client.accept_compressed(e.tonic().unwrap());
     }
+    // a clone of a configured client must behave like the original
+    let mut client = if rng.bool() { client.clone() } else { client };
     let nreq = if matches!(shape, Shape::ClientStream | Shape::Bidi) { rng.urange(0, 3) } else { 1 };
     let req_msgs: Vec<Msg> = (0..nreq).map(|i| Msg { data: rng.payload_of(&[0usize, 30, 500]), seq: i as u64 + 1, tag: String::new() }).collect();
     let spec = CallSpec { id: "cli".into(), shape, req_msgs: req_msgs.clone(), req_meta: vec![], req_pend: vec![], req_gaps_ms: vec![], timeout: None };
@@ -463,9 +476,17 @@ fn client_case(rng: &mut Rng, ctx: &mut Ctx, _idx: u64) {
     match class {
         "resp-not-enabled" => {
             ctx.count("cli.response_refused");
+            if trailers_only.is_some() {
+                ctx.count("cli.trailers_only_refused");
+            }
             if failure != Some(12) {
                 ctx.violation("response-encoding-not-refused", format!("response grpc-encoding {:?} is not enabled for receiving but the call outcome is {:?}", resp_enc_hdr, failure));
             }
+        }
+        _ if trailers_only.is_some() => {
+            // acceptable encoding header on a body-less response: the outcome is the announced status
+            // (a unary call without a message is an error of its own); nothing to judge here
+            ctx.count("cli.trailers_only_accepted");
         }
         _ => {
             let eff = if class == "resp-enabled" { resp_enc } else { None };
